@@ -11,6 +11,7 @@ import numpy as np
 from .. import c04_child, lib, ref
 from ..ref import Graph
 
+OPTIMISED_LAST_SHARD = True  # the last shard runs under python -O (no assert statements)
 LEVEL = "exploration"
 TECHNIQUE = 'runtime monitoring: round-trip monitor comparing a pre-serialization snapshot with the loaded dataset for every format (full/minimal/minimal_soln_cat/auto by threshold), in memory and through zanj files, datasets and collections'
 RULE = ("datasets from every generator and harness-built ones (ragged solutions incl. one-cell, two-cell and maximal-length paths), "
